@@ -25,7 +25,7 @@ def _docs(families, tier, seed, shard, pinned=()):
             if i % SHARDS == shard:
                 yield name, doc, {}
     if shard == 0:
-        for name, doc in list(corpus.DOCS.items()) + list(corpus.extra_docs().items()):
+        for name, doc in list(corpus.DOCS.items()) + list(corpus.extra_docs().items()) + list(corpus.FEATURES.items()):
             yield f"corpus:{name}", doc, corpus.OPTIONS.get(name, {})
         for name in pinned:
             yield f"pinned:{name}", corpus.PINNED[name], corpus.PINNED_OPTIONS.get(name, {})
@@ -235,7 +235,9 @@ def noise_variants(doc, rnd, k=3):
         for kind in kinds:
             tgt = rnd.choice(els)
             parent = tgt.getparent()
-            inside_special = any(etree.QName(a).localname in ("clipPath", "linearGradient", "radialGradient") for a in [tgt] + list(tgt.iterancestors()) if isinstance(a.tag, str))
+            # wrapper groups are only legal where the content model allows a <g> (not inside text, gradients; clipPath children
+            # cannot be groups either - picosvg rejects them, recorded separately)
+            inside_special = any(etree.QName(a).localname in ("clipPath", "linearGradient", "radialGradient", "text", "tspan", "textPath") for a in [tgt] + list(tgt.iterancestors()) if isinstance(a.tag, str))
             if kind == "comment":
                 tgt.append(etree.Comment(" noise ")) if len(tgt) or tgt is root else tgt.addnext(etree.Comment(" noise ")) if parent is not None else None
             elif kind == "pi":
@@ -255,8 +257,8 @@ def noise_variants(doc, rnd, k=3):
                 g = etree.Element(f"{{{NS}}}g")
                 tgt.addprevious(g)
                 g.append(tgt)
-            elif kind == "whitespace":
-                tgt.tail = "\n   \t"
+            elif kind == "whitespace" and not inside_special and (parent is None or etree.QName(parent).localname not in ("text", "tspan", "textPath")):
+                tgt.tail = "\n   \t"  # white space is significant inside text content, ignorable between other elements
         text = etree.tostring(root).decode()
         if rnd.random() < 0.5:
             text = '<?xml version="1.0" encoding="UTF-8"?>\n' + text
